@@ -19,7 +19,7 @@ theorem live_extendWidth (hr : 0 < ratio) (b : Bool) :
   fairUp := fun env _ _ hf t => by
     obtain ⟨t', ht, h⟩ := hf t
     refine ⟨t', ht, ?_⟩
-    show (extendWidth ratio d0 dataOf mk).bwd ((extendWidth ratio d0 dataOf mk).state env t') (env t').ctl (env t').rdy = true ∨ _
+    show (extendWidth ratio d0 dataOf mk).bwd ((extendWidth ratio d0 dataOf mk).state env t') (env t').ctl (env t').inp (env t').rdy = true ∨ _
     rcases h with h | ⟨hb, h⟩
     · left; simp [h]
     · have h' : ((extendWidth ratio d0 dataOf mk).fwd ((extendWidth ratio d0 dataOf mk).state env t') (env t').ctl (env t').inp).valid = false := h
